@@ -1,3 +1,4 @@
+from copy import deepcopy
 from typing import Optional, Sequence, Union
 
 import numpy as np
@@ -18,7 +19,8 @@ class Repeat(Operation):
     ):
         self.variables = (a,)
         self._axis = axis
-        self._repeats = repeats
+        # (a copy: the caller may go on to mutate a list/array that specified the repeats)
+        self._repeats = deepcopy(repeats)
         return np.repeat(a.data, repeats=repeats, axis=axis)
 
     def backward_var(self, grad, index, **kwargs):
